@@ -70,6 +70,7 @@ def run(ctx, rep):
     moves_common.run_pn_direction(ctx, rep, ctx.n(20, 300))
     moves_common.run_fista(ctx, rep, ctx.n(30, 300))
     moves_common.run_pdcd(ctx, rep, ctx.n(25, 300))
+    moves_common.run_pdcd_solve(ctx, rep)
     moves_common.run_mt_moves(ctx, rep, ctx.n(20, 300))
     moves_common.run_gram_moves(ctx, rep, ctx.n(30, 300))
 
